@@ -19,6 +19,7 @@ def run(facts, tier):
         ("mode byte", H.mode_byte, 1, "mode byte encode/decode are inverse"),
         ("tautologies", lambda fa: generic_lints.tautologies(fa, ('hll/',)), 2, "no comparison / assignment / min-max with two identical operands, no if-else with identical arms"),
         ("duplicate operands", lambda fa: generic_lints.duplicate_conjuncts(fa, ('hll/',)), 2, "no logical chain tests the same operand twice (copy-paste of the wrong peer)"),
+        ("forwarding peers", lambda fa: generic_lints.forwarding_peers(fa, ('hll/',)), 2, "one-statement typed overloads forward to an overload of their own name, never to the head of a sibling family (wrong peer)"),
         ("structural triggers", lambda fa: triggers.obligations(fa, ['AuxHashMap', 'CouponHashSet', 'CouponList', 'Hll4Array']), 9, "the comparisons that decide when to resize / rebuild / compact / purge / promote keep their reviewed boundary (operator and constants)"),
     ):
         o = f(facts)
